@@ -259,6 +259,21 @@ func verifC02Panic(pv string) {
 	panic("verif: unknown panic value kind " + pv)
 }
 
+// verifC02Catch runs f and reports whether it panicked -- by a completion flag, so that panic(nil) (for which
+// recover() returns nil under the module's go 1.19 semantics) counts too.
+func verifC02Catch(f func()) (panicked bool, val string) {
+	finished := false
+	defer func() {
+		if !finished {
+			panicked = true
+			val = fmt.Sprint(recover())
+		}
+	}()
+	f()
+	finished = true
+	return
+}
+
 func verifC02Do(w http.ResponseWriter, a verifC02Action) string {
 	switch a.A {
 	case "set":
@@ -347,7 +362,7 @@ func verifC02RunTw(c *verifC02Case) (obs map[string]any, ok bool) {
 	var panicVal string
 	go func() {
 		defer close(gdone)
-		panicked, panicVal = verifdrv.Catch(func() { h.ServeHTTP(w, req) })
+		panicked, panicVal = verifC02Catch(func() { h.ServeHTTP(w, req) })
 	}()
 
 	// next waits until the handler parks again (true) or the inner chain is over (false)
@@ -485,7 +500,7 @@ func verifC02RunConns(c *verifC02Case) map[string]any {
 			req.Header.Set("X-Verif-Req", strconv.Itoa(op.I))
 			go func() {
 				defer close(q.returned)
-				q.propagated, _ = verifdrv.Catch(func() { h.ServeHTTP(q.rec, req) })
+				q.propagated, _ = verifC02Catch(func() { h.ServeHTTP(q.rec, req) })
 			}()
 			select {
 			case <-q.entered:
@@ -638,7 +653,7 @@ func verifC02RunMulti(c *verifC02Case) map[string]any {
 			r.started = true
 			go func() {
 				defer close(r.gdone)
-				r.panicked, _ = verifdrv.Catch(func() { h.ServeHTTP(r.w, r.req) })
+				r.panicked, _ = verifC02Catch(func() { h.ServeHTTP(r.w, r.req) })
 			}()
 			next(r)
 		case "step":
